@@ -4,6 +4,5 @@ CONSTANTS
   Payloads = {"p", "q"}
   HasParallelRule = TRUE
   MaxRounds = 2
-  Memo = FALSE
+  Memo = TRUE
 INVARIANT Sorted
-PROPERTY MeaningAction
